@@ -249,7 +249,7 @@ func ruleLeaveCallers(r *Run) {
 			continue
 		}
 		n++
-		okCaller := fn.Name == "websocket.(*RealtimeHandler).HandleDisconnect" || fn.Name == "websocket.(*RealtimeHandler).HandleParticipantJoin"
+		okCaller := r.onlyFrom(fn, "websocket.(*RealtimeHandler).HandleDisconnect", "websocket.(*RealtimeHandler).HandleParticipantJoin")
 		r.Check("E2", "caller["+fn.Name+"]", okCaller, fn.Body.Pos(), "the leave function is called from the disconnect handler and from join only")
 		paths := r.Paths(fn)
 		r.Analysed(fn, len(paths))
